@@ -3,6 +3,7 @@ import MimeModel.Model.MediaType
 import MimeModel.Model.Reader
 import MimeModel.Gen.Tree
 import MimeModel.Spec.All
+import MimeModel.Spec.Json
 /-
   Line-protocol driver for the correspondence check (core Lean only; compiled).
   Input : one operation per line, `op args... => go-result`
@@ -386,6 +387,59 @@ def handle (line : String) : String :=
         let sp := Spec.zipSpec ch ns
         if sp == "" then "OK" else sp
       | _ => "SPEC C01:no-result(" ++ goRes ++ ")"
+    | ["jdoc", hx] =>
+      match unhex hx, goRes.splitOn " " with
+      | some doc, [ww, bits] =>
+        let wantTok := Json.tokObject ||| Json.tokArray
+        let q := Gen.Json.q_json
+        let n := doc.length
+        let mw := (if Json.jsonHelper doc 0 q wantTok then "T" else "F") ++ (if Json.jsonHelper doc (n + 1) q wantTok then "T" else "F")
+        let mbits := String.ofList ((List.range n).map fun i => if Json.jsonHelper (doc.take (i + 1)) (i + 1) q wantTok then 'T' else 'F')
+        let d := if mw == ww && mbits == bits then "" else s!"DIFF jdoc model={mw} {mbits}"
+        let sp := match Spec.J.doc true doc with
+          | none => ""
+          | some v =>
+            if Spec.J.depth v > 4096 then "" else
+            if ww != "TT" then "SPEC C08:well-formed-document-rejected" else
+            let openIdx := n - (Spec.J.skipWs doc).length
+            let bl := bits.toList
+            match (List.range n).find? (fun i => i + 1 > openIdx && bl.getD i 'F' != 'T') with
+            | some i => s!"SPEC C08:truncated-document-rejected-at-cut-{i + 1}"
+            | none => ""
+        let all := [d, sp].filter (· != "")
+        if all.isEmpty then "OK" else String.intercalate " ; " all
+      | _, _ => "BAD args"
+    | ["jany", hx] =>
+      match unhex hx with
+      | some raw =>
+        let wantTok := Json.tokObject ||| Json.tokArray
+        let q := Gen.Json.q_json
+        let m := (if Json.jsonHelper raw 0 q wantTok then "T" else "F") ++ (if Json.jsonHelper raw raw.length q wantTok then "T" else "F")
+        let d := if m == goRes then "" else s!"DIFF jany model={m}"
+        let g := goRes.toList
+        let s1 := if g.getD 0 'F' == 'T' && !Spec.J.relaxedDoc raw then "SPEC C09:malformed-document-reported-as-json" else ""
+        let s2 := if g.getD 1 'F' == 'T' && !Spec.J.viable raw then "SPEC C09:truncated-input-not-a-prefix-of-a-document" else ""
+        let s3 := match Spec.J.doc true raw with
+          | some v => if Spec.J.depth v ≤ 4096 && g.getD 0 'F' != 'T' then "SPEC C08:well-formed-document-rejected" else ""
+          | none => ""
+        let all := [d, s1, s2, s3].filter (· != "")
+        if all.isEmpty then "OK" else String.intercalate " ; " all
+      | none => "BAD args"
+    | ["jsub", hx, lim] =>
+      match unhex hx, parseNat lim with
+      | some doc, some l =>
+        if l != 0 && l ≤ doc.length then "SKIP truncated" else
+        match Spec.J.doc true doc with
+        | none => "SKIP not-strict"
+        | some v =>
+          let expect : String :=
+            if Spec.J.isGeo v then bhex (ofString "application/geo+json") ++ "|" ++ bhex (ofString ".geojson")
+            else if Spec.J.isHar v then bhex (ofString "application/json") ++ "|" ++ bhex (ofString ".har")
+            else if Spec.J.isGltf v then bhex (ofString "model/gltf+json") ++ "|" ++ bhex (ofString ".gltf")
+            else bhex (ofString "application/json") ++ "|" ++ bhex (ofString ".json")
+          let leaf := (goRes.splitOn ",").headD ""
+          if leaf == expect then "OK" else s!"SPEC C10:wrong-json-subtype expected={expect}"
+      | _, _ => "BAD args"
     | ["treeeq"] =>
       let m := String.intercalate " " (dumpTree Gen.builtin)
       if m == goRes then "OK" else s!"DIFF tree model={m}"
